@@ -216,6 +216,11 @@ Definition all_sql_dash (ver : str) (srcs : list str) (g : integ) : list stmt :=
   map (fun s => app_name_sql ver s g) (take_while (fun s => mem s srcs) (refs_of g)) ++
   running_sql srcs [g].
 
+(* web.SaveSource: a source submitted through the dashboard is stored (with a
+   parameterised insert) only when its name is not empty and passes
+   wstrings.Safe; loadTasks later trusts the stored name *)
+Definition save_source_ok (U : uni) (name : str) : bool := negb (is_nil name) && safe U name.
+
 (* ---- what the translator must find in the source (Gen.UserInputChecks) ----
    The statements above were written against exactly these places; a new or
    changed format string, argument or non-constant statement breaks the
